@@ -31,6 +31,9 @@ def main(argv=None):
         with open(args.replay) as f:
             rp = json.load(f)
         res = Result(args.prop, 'replay', 0, 0)
+        if isinstance(rp['case'], dict) and rp['case'].get('_debug_logging'):
+            from mtv.result import set_debug_logging
+            set_debug_logging(True)
         mod.replay(rp['case'], res)
         if res.violations:
             for v in res.violations:
